@@ -54,6 +54,11 @@ def sorStep [Add α] [Sub α] [Mul α] [Div α] [Zero α] (ω : α) (A : Csr α)
 def sorSweep [Add α] [Sub α] [Mul α] [Div α] [Zero α] (ω : α) (A : Csr α) (x : Array α) : Array α :=
   (List.range A.rows).foldl (sorStep ω A x) x
 
+/-- the sweep when `apply(v, v)` is called in place: `vec_cor.copy(vec_def)` is a self-copy and `pin` IS `pout`
+    (row `i` reads `pin[i]` before it overwrites it) -/
+def sorSweepIn [Add α] [Sub α] [Mul α] [Div α] [Zero α] (ω : α) (A : Csr α) (x : Array α) : Array α :=
+  (List.range A.rows).foldl (fun out i => sorStep ω A out out i) x
+
 /-- `SORPrecond::apply`: sweep, then the correction filter -/
 def sorApply [Add α] [Sub α] [Mul α] [Div α] [Zero α] (ω : α) (fidx : List Nat) (A : Csr α) (x : Array α) : Array α :=
   filterCor fidx (sorSweep ω A x)
@@ -73,6 +78,10 @@ def ssorBwdStep [Add α] [Sub α] [Mul α] [Div α] [Zero α] (ω : α) (A : Csr
 
 def ssorFwd [Add α] [Sub α] [Mul α] [Div α] [Zero α] (ω : α) (A : Csr α) (x : Array α) : Array α :=
   (List.range A.rows).foldl (ssorFwdStep ω A x) x
+
+/-- forward insertion of the in-place call `apply(v, v)` (`pin` aliases `pout`) -/
+def ssorFwdIn [Add α] [Sub α] [Mul α] [Div α] [Zero α] (ω : α) (A : Csr α) (x : Array α) : Array α :=
+  (List.range A.rows).foldl (fun out i => ssorFwdStep ω A out out i) x
 
 /-- rows `n-1, …, 0` -/
 def ssorBwd [Add α] [Sub α] [Mul α] [Div α] [Zero α] (ω : α) (A : Csr α) (y : Array α) : Array α :=
